@@ -409,6 +409,9 @@ def blob_slice(ex, st, base, lo, hi):
 
 
 def b_open(ex, st, args, kwargs, node):
+    if (ex.cur_target or {}).get('default_callee') == 'opaque':
+        # orchestration targets: opening a file is an observable event (trace clauses can forbid or order it)
+        return ex.opaque_call(st, 'open', None, args, kwargs, node)
     raise Unsupported('open()')
 
 
